@@ -26,6 +26,9 @@
    matchIdx, startIdx; commit := any c <= old commit); cur and vote persist.
    Acknowledgements already filed stay in [acks].
 
+   STrunc: the network may cut a request after k whole entries (the pool gains
+   the shortened request; no answer is lost that was not lost anyway).
+
    Snapshots: logs are LOGICAL logs, compaction is invisible.  SInstall: a
    follower installs a snapshot standing for a prefix K of the log M some
    leader of a term <= t had when it committed an index >= |K| (see do_install).
@@ -247,6 +250,15 @@ Definition do_install (f t l : N) (K : list entry) (c : nat) (s : state) : state
       (started s) (grants s) (appends s)
       ((t, f, length K) :: acks s) (elected s) (created s) (committed s) (cmts s).
 
+(* the network cuts request m after k whole entries: the follower has handled
+   those k entries exactly as if a request carrying only them had arrived *)
+Definition trunc_req (m : areq) (k : nat) : areq :=
+  mkReq (rterm m) (rldr m) (rprevIdx m) (rprevTerm m) (firstn k (rents m)) (rcommit m).
+
+Definition do_trunc (m : areq) (k : nat) (s : state) : state :=
+  mkS (st s) (started s) (grants s) (trunc_req m k :: appends s)
+      (acks s) (elected s) (created s) (committed s) (cmts s).
+
 (* gb = true: the reconfiguration guard (b) "the leader has committed an entry
    of its own term" is in force (the model); gb = false: the flawed variant. *)
 Inductive gstep (gb : bool) (s : state) : state -> Prop :=
@@ -294,7 +306,8 @@ Inductive gstep (gb : bool) (s : state) : state -> Prop :=
     In (tc, k, M) (cmts s) -> tc <= t -> (length K <= k)%nat ->
     K = firstn (length K) M ->
     (commit (st s f) <= c <= Nat.max (commit (st s f)) (length K))%nat ->
-    gstep gb s (do_install f t l K c s).
+    gstep gb s (do_install f t l K c s)
+| STrunc m k : In m (appends s) -> gstep gb s (do_trunc m k s).
 
 Definition step := gstep true.
 
@@ -303,5 +316,19 @@ Inductive GReachable (gb : bool) : state -> Prop :=
 | GR_step s s' : GReachable gb s -> gstep gb s s' -> GReachable gb s'.
 
 Definition Reachable := GReachable true.
+
+(* zero or more steps *)
+Inductive gsteps (gb : bool) : state -> state -> Prop :=
+| gs_refl s : gsteps gb s s
+| gs_cons s s1 s' : gstep gb s s1 -> gsteps gb s1 s' -> gsteps gb s s'.
+
+Lemma gsteps_one gb s s' : gstep gb s s' -> gsteps gb s s'.
+Proof. intro H. apply (gs_cons gb s s' s' H). apply gs_refl. Qed.
+
+Lemma gsteps_reachable gb s s' : GReachable gb s -> gsteps gb s s' -> GReachable gb s'.
+Proof.
+  intros R H. induction H as [|s s1 s' Hs _ IH]; [exact R|].
+  apply IH. exact (GR_step gb s s1 R Hs).
+Qed.
 
 End Steps.
